@@ -645,6 +645,9 @@ def _stopv(v):
     return None if v == NONEINT else v
 
 
+_GRIDS = []       # caller-owned grids handed to interpolate during the current history
+
+
 def wcall(w, op):
     """Perform one operation record on a real Weaver (public API only)."""
     k = op["k"]
@@ -675,6 +678,10 @@ def wcall(w, op):
         return w.interpolate(n=op["n"], method=op["method"])
     if k == "interpolate_grid":
         q = arr(op["q"], op.get("qcontainer", "array"))
+        if op.get("snap_ends"):      # the grid "shares both end points": take them from the object itself (bit-identical)
+            cur = w.get()[0]
+            q[0], q[-1] = float(cur[0]), float(cur[-1])
+        _GRIDS.append(q)
         return w.interpolate(new_x=q, method=op["method"])
     if k == "trend":
         return w.trend(poly(op["c"]), normalized=op["normalized"])
@@ -744,22 +751,27 @@ def ex_whist(c):
     keep = [np.array(cx, copy=True) if isinstance(cx, np.ndarray) else list(cx), np.array(cy, copy=True) if isinstance(cy, np.ndarray) else list(cy)]
     extra_caller = []          # further caller-owned arrays (explicit grids)
 
-    def caller_ok():
-        same = lambda a, b: (a.tobytes() == b.tobytes() and a.dtype == b.dtype) if isinstance(a, np.ndarray) else a == b
-        return bool(same(cx, keep[0]) and same(cy, keep[1]) and all(a.tobytes() == b for a, b in extra_caller))
+    del _GRIDS[:]
+    grid_snap = []
+
+    def caller_state():
+        def one(a):
+            return (str(a.dtype), a.tobytes()) if isinstance(a, np.ndarray) else repr(a)
+        return [one(cx), one(cy)] + [one(g) for g in _GRIDS]
     w = Weaver(cx, cy)
     e = {"fn": "whist", "start": {"x": st["x"], "y": st["y"]}, "init": wobs(w), "steps": []}
     for op in c["ops"]:
         before = snap(w)
+        cbefore = caller_state()
         prev_ref = guarded(lambda: tuple(np.array(v, dtype=float, copy=True) for v in w.get_reference()))[1]
-        o = {kk: vv for kk, vv in op.items() if kk not in ("n_f", "alpha_f", "exp_f", "smooth_f", "s_f", "snr_f", "seed", "as_int", "qcontainer", "linear")}
+        o = {kk: vv for kk, vv in op.items() if kk not in ("n_f", "alpha_f", "exp_f", "smooth_f", "s_f", "snr_f", "seed", "as_int", "qcontainer", "linear", "snap_ends")}
         if op["k"] == "truncate_index" and prev_ref is not None:
             op = dict(op, stop_resolved=(len(w.get()[0]) if op["stop"] == NONEINT else op["stop"]))
         if op["k"] == "interpolate_grid":
             pass
         oc, _ = guarded(lambda: wcall(w, op))
         after = snap(w)
-        s = {"op": o, "outcome": oc, "frame": after == before, "caller": caller_ok(), "orig_same": after[4:] == before[4:], "frx": [], "fry": []}
+        s = {"op": o, "outcome": oc, "frame": after == before, "caller": caller_state()[:len(cbefore)] == cbefore, "orig_same": after[4:] == before[4:], "frx": [], "fry": []}
         obs = guarded(lambda: wobs(w))[1]
         if obs is None:
             obs = {"x": [], "y": [], "rx": [], "ry": [], "ox": [], "oy": [], "kinds": "unobservable"}
@@ -796,3 +808,33 @@ def ex_wrestore(c):
 
 
 EXECUTORS.update({"whist": ex_whist, "wrestore": ex_wrestore})
+
+
+# ---------------------------------------------------------------------------------------------- C20 miscellaneous refusals
+def ex_reject_misc(c):
+    k = c["kind"]
+
+    def go():
+        if k == "len_mismatch":
+            return Weaver(np.arange(c["m"], dtype=float), np.arange(c["m"] + c["d"], dtype=float))
+        if k == "len_mismatch_list":
+            return Weaver(list(range(c["m"])), list(range(c["m"] + c["d"])))
+        if k == "bad_2d":
+            return Weaver.from_2d_array(np.zeros(tuple(c["shape"])))
+        if k == "unknown_dataset":
+            from traffic_weaver.datasets import load_dataset
+            return load_dataset(c["name"])
+        if k == "unknown_strategy":
+            return sau.find_closest_element_indices_to_values(np.arange(4.0), np.array([1.5]), strategy=c["name"])
+        if k == "unknown_rule":
+            return sau.integral(np.arange(4.0), np.arange(4.0), method=c["name"])
+        if k == "unknown_method":
+            return proc.interpolate(np.arange(5.0), np.arange(5.0), np.array([0.5, 1.5]), method=c["name"])
+        raise KeyError(k)
+    oc, o = guarded(go)
+    e = dict(c)
+    e["outcome"] = oc if oc != "ok" else "returned:" + type(o).__name__
+    return e
+
+
+EXECUTORS.update({"reject_misc": ex_reject_misc})
